@@ -21,27 +21,39 @@ func enumCfgs() []SrvCfg {
 		mk("tcp", []string{"none", "tls"}, []string{"guest", "plain", "external"}, "echo"),
 		mk("tcp-tls", []string{"none", "tls"}, []string{"transport"}, "error"),
 		mk("tcp", []string{"none"}, []string{"guest", "plain", "key", "transport", "external"}, "assign"),
+		mk("inproc", []string{"none"}, []string{"plain", "guest"}, "echo"),
 	}
 }
 
 // runSrvEnum enumerates scripts for the representative configurations and hands every case to judge.
 func runSrvEnum(t *testing.T, rec *Recorder, mode string, depth int, judge func(c *SrvCase, obs *SrvObs, o *Outcome)) {
+	runSrvEnumEnds(t, rec, mode, depth, []string{"eof"}, judge)
+}
+
+// runSrvEnumEnds: the same, with every script ended in each of the given ways.
+func runSrvEnumEnds(t *testing.T, rec *Recorder, mode string, depth int, ends []string, judge func(c *SrvCase, obs *SrvObs, o *Outcome)) {
 	sh, nsh := Shard()
 	idx := 0
 	for _, cfg := range enumCfgs() {
 		cfg.Mode = mode
 		alpha := srvAlphabet(&cfg, false)
-		enumScripts(cfg, alpha, depth, implNegotiates(&cfg), func(c *SrvCase) {
-			idx++
-			if idx%nsh != sh {
-				return
+		if cfg.Transport == "inproc" {
+			alpha = inprocAlphabet(alpha)
+		}
+		enumScripts(cfg, alpha, depth, implNegotiates(&cfg), func(c0 *SrvCase) {
+			for _, end := range ends {
+				idx++
+				if idx%nsh != sh {
+					continue
+				}
+				c := &SrvCase{Cfg: c0.Cfg, Script: c0.Script, End: end}
+				o := &Outcome{}
+				var obs *SrvObs
+				rec.Journal(c)
+				synctest.Test(t, func(t *testing.T) { obs = RunServerScript(c) })
+				judge(c, obs, o)
+				rec.Eval(c, o)
 			}
-			o := &Outcome{}
-			var obs *SrvObs
-			rec.Journal(c)
-			synctest.Test(t, func(t *testing.T) { obs = RunServerScript(c) })
-			judge(c, obs, o)
-			rec.Eval(c, o)
 		})
 	}
 	rec.Note("enum_depth", fmt.Sprint(depth))
